@@ -632,6 +632,43 @@ RULES["R52"] = rule_R52
 RULE_DOC["R52"] = rule_R52.__doc__.strip()
 
 
+def rule_R53(src, stats):
+    """closure with a single identifier parameter and a non-block body passed as a call argument: `(|x| E)` -> `(|x| { E })`
+    (E = the expression up to the next `,`/`)` at the closure's nesting depth).  Rust only allows a closure contract
+    (`-> (r: T) requires .. ensures ..`, given with `#!! after 1 `|x|``) in front of a block body."""
+    while True:
+        code = _toks(src)
+        hit = False
+        for i in range(1, len(code) - 3):
+            if code[i].text == "|" and code[i + 1].kind == "ident" and code[i + 2].text == "|" \
+                    and code[i - 1].text in ("(", ",") and code[i + 3].text != "{" \
+                    and not code[i + 1].text.startswith("vx_c"):
+                b = i + 3
+                d, k = 0, b
+                while True:
+                    t = code[k].text
+                    if t in ("(", "[", "{"):
+                        d += 1
+                    elif t in (")", "]", "}"):
+                        if d == 0:
+                            break
+                        d -= 1
+                    elif t == "," and d == 0:
+                        break
+                    k += 1
+                end = code[k - 1].end
+                src = _replace_spans(src, [(code[b].start, code[b].start, "{ "), (end, end, " }")])
+                stats["R53"] = stats.get("R53", 0) + 1
+                hit = True
+                break
+        if not hit:
+            return src
+
+
+RULES["R53"] = rule_R53
+RULE_DOC["R53"] = rule_R53.__doc__.strip()
+
+
 def rule_R61(src, stats):
     """`X.try_into().unwrap()` (X an identifier) -> `vx_try_into_unwrap(X)`: slice -> fixed-size array conversion.  vstd has no usable
     spec for `<[u8; N]>::try_from(&[u8])`; the shim `vx_try_into_unwrap` (unit raw part / shims) has `requires X@.len() == N`, so the
